@@ -20,7 +20,13 @@ import GunYu.Gen.BisyncTags
 namespace GunYu.BisyncUnit
 open GunYu
 
-deriving instance DecidableEq for Except
+/-- decidable equality of `Except` values (own name: Model/Resp.lean derives
+    one too, and both may be imported together) -/
+instance instDecEqExceptBisync {ε α : Type} [DecidableEq ε] [DecidableEq α] : DecidableEq (Except ε α)
+  | .ok a, .ok b => if h : a = b then isTrue (by rw [h]) else isFalse (fun e => h (by injection e))
+  | .error a, .error b => if h : a = b then isTrue (by rw [h]) else isFalse (fun e => h (by injection e))
+  | .ok _, .error _ => isFalse (fun e => by cases e)
+  | .error _, .ok _ => isFalse (fun e => by cases e)
 
 /-- a Redis command as the tool carries it (`bisyncAofCommand{Cmd, Args}`) -/
 structure Cmd where
